@@ -373,18 +373,32 @@ fn get_slice_reference_sequence<'c>(
             .reference_sequences()
             .get_index(context.reference_sequence_id())
             .map(|(name, _)| name)
-            .expect("invalid slice reference sequence ID");
+            .ok_or_else(|| {
+                io::Error::new(
+                    io::ErrorKind::InvalidData,
+                    "invalid slice reference sequence ID",
+                )
+            })?;
 
         let sequence = reference_sequence_repository
             .get(reference_sequence_name)
             .transpose()?
-            .expect("invalid slice reference sequence name");
+            .ok_or_else(|| missing_reference_sequence_error(reference_sequence_name))?;
 
         // § 8.5 "Slice header block" (2024-09-04): "MD5sums should not be validated if the stored
         // checksum is all-zero."
         if let Some(expected_md5) = slice_header.reference_md5() {
-            let interval = context.alignment_start()..=context.alignment_end();
-            let subsequence = &sequence[interval];
+            // The alignment span can extend past the end of the reference sequence, e.g., when a
+            // read overhangs it.
+            let start = context.alignment_start();
+            let end = usize::from(context.alignment_end()).min(sequence.len());
+
+            let subsequence = Position::new(end)
+                .and_then(|end| sequence.get(start..=end))
+                .ok_or_else(|| {
+                    io::Error::new(io::ErrorKind::InvalidData, "invalid slice alignment span")
+                })?;
+
             validate_sequence(subsequence, expected_md5)?;
         }
 
@@ -394,7 +408,12 @@ fn get_slice_reference_sequence<'c>(
             .iter()
             .find(|(id, _)| *id == block_content_id)
             .map(|(_, src)| src)
-            .expect("invalid block content ID");
+            .ok_or_else(|| {
+                io::Error::new(
+                    io::ErrorKind::InvalidData,
+                    "invalid embedded reference bases block content ID",
+                )
+            })?;
 
         Ok(Some(ReferenceSequence::Embedded {
             reference_start: context.alignment_start(),
@@ -493,6 +512,95 @@ mod tests {
             slice.decode_blocks(),
             Err(e) if e.kind() == io::ErrorKind::InvalidData
         ));
+    }
+
+    #[test]
+    fn test_get_slice_reference_sequence() -> Result<(), Box<dyn std::error::Error>> {
+        use std::num::NonZero;
+
+        use fasta::record::{Definition, Sequence};
+        use sam::header::record::value::{Map, map};
+
+        fn build_slice_header(
+            reference_sequence_context: ReferenceSequenceContext,
+            reference_md5: Option<[u8; 16]>,
+        ) -> Header {
+            Header {
+                reference_sequence_context,
+                record_count: 0,
+                record_counter: 0,
+                block_count: 1,
+                block_content_ids: Vec::new(),
+                embedded_reference_bases_block_content_id: None,
+                reference_md5,
+                optional_tags: Vec::new(),
+            }
+        }
+
+        let repository = fasta::Repository::new(vec![fasta::Record::new(
+            Definition::new("sq0", None),
+            Sequence::from(b"ACGTACGT".to_vec()),
+        )]);
+
+        let header = sam::Header::builder()
+            .add_reference_sequence(
+                "sq0",
+                Map::<map::ReferenceSequence>::new(const { NonZero::new(8).unwrap() }),
+            )
+            .add_reference_sequence(
+                "sq1",
+                Map::<map::ReferenceSequence>::new(const { NonZero::new(13).unwrap() }),
+            )
+            .build();
+
+        let compression_header = CompressionHeader::default();
+
+        // The alignment span extends past the end of the reference sequence.
+        let context =
+            ReferenceSequenceContext::some(0, Position::try_from(5)?, Position::try_from(10)?);
+        let reference_md5 = calculate_normalized_sequence_digest(b"ACGT");
+        let slice_header = build_slice_header(context, Some(reference_md5));
+
+        assert!(matches!(
+            get_slice_reference_sequence(
+                &repository,
+                &header,
+                &compression_header,
+                &slice_header,
+                &[]
+            )?,
+            Some(ReferenceSequence::External { .. })
+        ));
+
+        // The alignment span starts past the end of the reference sequence.
+        let context =
+            ReferenceSequenceContext::some(0, Position::try_from(9)?, Position::try_from(10)?);
+        let slice_header = build_slice_header(context, Some(reference_md5));
+
+        assert!(matches!(
+            get_slice_reference_sequence(&repository, &header, &compression_header, &slice_header, &[]),
+            Err(e) if e.kind() == io::ErrorKind::InvalidData
+        ));
+
+        // The reference sequence is not in the SAM header.
+        let context = ReferenceSequenceContext::some(2, Position::MIN, Position::MIN);
+        let slice_header = build_slice_header(context, None);
+
+        assert!(matches!(
+            get_slice_reference_sequence(&repository, &header, &compression_header, &slice_header, &[]),
+            Err(e) if e.kind() == io::ErrorKind::InvalidData
+        ));
+
+        // The reference sequence is not in the reference sequence repository.
+        let context = ReferenceSequenceContext::some(1, Position::MIN, Position::MIN);
+        let slice_header = build_slice_header(context, None);
+
+        assert!(matches!(
+            get_slice_reference_sequence(&repository, &header, &compression_header, &slice_header, &[]),
+            Err(e) if e.kind() == io::ErrorKind::InvalidInput
+        ));
+
+        Ok(())
     }
 
     #[test]
